@@ -51,7 +51,8 @@ def model_check(v, tier):
     jobs = [("HttpSess_mc_quick.cfg" if tier == "quick" else "HttpSess_mc_thorough.cfg", 4),
             ("HttpSess_mc_stateless.cfg", 1), ("HttpSess_mc_notimeout.cfg", 2)]
     if tier != "quick":
-        jobs.append(("HttpSess_mc_thorough2.cfg", 2))
+        # three ids without store faults; the store-fault dimension exhaustively with two ids (T=3 and T=4)
+        jobs += [("HttpSess_mc_thorough2.cfg", 2), ("HttpSess_mc_quick.cfg", 2)]
     base = open(os.path.join(vlib.SPEC, "HttpSess_mc_quick.cfg")).read().split("INVARIANTS")[0]
 
     def mc(job):
@@ -233,6 +234,9 @@ def run(tier, seed, replay):
                 (lambda: cover_histories(v, "HttpSess_cover.cfg", 3, False, seed, True, "cover.")),
                 lambda: cover_histories(v, "HttpSess_cover_stateless.cfg", 0, True, seed, True, "stateless."),
                 lambda: cover_histories(v, "HttpSess_cover_fault.cfg", 3, False, seed, True, "fault.", fault=True),
+            ] + ([] if tier == "quick" else [
+                lambda: cover_histories(v, "HttpSess_cover_fault2.cfg", 3, False, seed, False, "fault2.", 1.0, fault=True),
+            ]) + [
                 lambda: sim_histories(v, cfg_with("HttpSess_gen.cfg"), 3, False, nsim, 35, seed, "sim."),
                 lambda: sim_histories(v, cfg_with("HttpSess_gen.cfg", T=0), 0, False, max(20, nsim // 10), 25, seed + 1, "sim0."),
                 lambda: sim_histories(v, cfg_with("HttpSess_gen.cfg", T=2, MaxSess=2), 2, False, max(40, nsim // 4), 40, seed + 2, "sim2."),
@@ -316,7 +320,8 @@ def run(tier, seed, replay):
     v.cov["tie_steps"] = sum(1 for r in obs_rows if r.get("pre"))
     v.cov["rule"] = ("histories = transition cover of the TLC state graph of the settled session-table model (quick: every "
                      "state-changing edge + a seeded sample of the self-loop edges; thorough: every edge) + stateless cover + every "
-                     "edge of the graph of one session x EventStore fault mode (up / nopurge / down) + "
+                     "edge of the graph of one session x EventStore fault mode (up / nopurge / down; thorough: also the state-changing "
+                     "edges of two sessions x fault mode) + "
                      "TLC-simulated behaviours of the full model (incl. requests at exactly the idle deadline; without and with store faults); distinct by "
                      "operation sequence and configuration; non-trivial = a session was terminated or a request was refused "
                      "with 403/404/405")
